@@ -519,9 +519,16 @@ def do_run(ctx, mod):
     except CeilingHit:
         pass
     except Broken as e:
-        print(f"BROKEN: {e}", flush=True)
-        ctx.close()
-        return 2
+        real = [f for f in ctx.tally.fails if "harness_error" not in f["cls"]]
+        if not real:
+            print(f"BROKEN: {e}", flush=True)
+            ctx.close()
+            return 2
+        # a vacuity guard tripped AFTER failures were recorded: a defect may legitimately cut an enumeration short, and a
+        # recorded failure must never be pre-empted by "broken" — report the failures (exit 1), mention the guard
+        print(f"note: a vacuity guard tripped after {ctx.tally.nfails} failing points were recorded ({e}); reporting the failures", flush=True)
+        ctx.coverage["exhaustive"] = False
+        ctx.coverage["guard_tripped_after_failures"] = str(e)[:300]
     except Exception:
         traceback.print_exc()
         print("BROKEN: check crashed", flush=True)
